@@ -74,9 +74,15 @@ def _check(ctx: Ctx) -> None:
     outer = next((n for n in fi.node.body if isinstance(n, ast.For) and isinstance(n.iter, ast.Name) and n.iter.id == seqs), None)
     if outer is None:
         raise AnalysisError(f"{q}: loop over the input sequences not found")
-    inner = next((n for n in outer.body if isinstance(n, ast.For)), None)
+    inner = next((n for n in ast.walk(outer) if isinstance(n, ast.For) and n is not outer), None)
     if inner is None or not isinstance(inner.target, ast.Name):
         raise AnalysisError(f"{q}: loop over the messages of an input not found")
+    # every input is visited: nothing governs the message loop inside the loop over the inputs (a guard clause `if …: continue`
+    # is read as the condition it puts on the rest of the iteration)
+    from ..astutil import guarded_conditions
+    gov = guarded_conditions(inner, outer)
+    ctx.check(not gov, "ALL", f"{q}: the messages of every input are visited", function=q, construct="merge can skip or stop at some input sequence",
+              message=f"the message loop runs only when {[(short(t, 50), h) for t, h in gov]}", file=fi.file, node=inner)
     # the inner iterable is all messages of the current input sequence
     it = inner.iter
     ok_iter = False
